@@ -133,7 +133,7 @@ type Step struct {
 	Version string            `json:"version,omitempty"` // value of the build-time version string
 	NoVer   bool              `json:"no_version,omitempty"`
 	Plan    simrt.Plan        `json:"plan"`
-	Plain   bool              `json:"plain,omitempty"`   // run the uninstrumented twin
+	Plain   bool              `json:"plain,omitempty"`    // run the uninstrumented twin
 	ExePath string            `json:"exe_path,omitempty"` // run a private copy of the binary at this path (relative to the sandbox root)
 	UnsetCI bool              `json:"unset_ci,omitempty"`
 }
